@@ -114,6 +114,26 @@ func (s *Session) ScanFieldModes(prop string) *FuncResult {
 	}
 	for _, fn := range s.P.AllFns {
 		fname := s.P.ShortName(fn)
+		// senders / receivers: the two ends of a channel field belong to the listed functions only (the
+		// guarantee side of a rely clause on what is received: everything sent was sent by a function
+		// whose contract says what it sends; and "exactly these goroutines consume the queue")
+		chanEnd := func(f, mode, what string, pos token.Pos) {
+			if f == "" {
+				return
+			}
+			for _, m := range s.CS.FieldModes[f] {
+				if m == nil || m.Mode != mode || !hasProp(propsOf(m), prop) {
+					continue
+				}
+				ok := false
+				for _, w := range argsOf(m) {
+					if w == fname {
+						ok = true
+					}
+				}
+				add(fmt.Sprintf("field-modes/%s[%s]@%s", mode, f, fname), ok, pos, what+" "+f+" in "+fname+" ("+s.P.PosStr(pos)+"): only "+strings.Join(argsOf(m), ", ")+" may", propsOf(m))
+			}
+		}
 		for _, b := range fn.Blocks {
 			for _, in := range b.Instrs {
 				switch i := in.(type) {
@@ -176,15 +196,74 @@ func (s *Session) ScanFieldModes(prop string) *FuncResult {
 					if m := s.CS.Fields[f]; m != nil && m.Mode == "closeonly" && hasProp(propsOf(m), prop) {
 						add(fmt.Sprintf("field-modes/closeonly[%s]@%s", f, fname), false, i.Pos(), "send on close-only channel "+f+" in "+fname, propsOf(m))
 					}
+					chanEnd(f, "senders", "send on", i.Pos())
 				case *ssa.Select:
 					for _, st := range i.States {
+						f := fieldOfLoaded(st.Chan)
 						if st.Dir == types.SendOnly {
-							f := fieldOfLoaded(st.Chan)
 							if m := s.CS.Fields[f]; m != nil && m.Mode == "closeonly" && hasProp(propsOf(m), prop) {
 								add(fmt.Sprintf("field-modes/closeonly[%s]@%s", f, fname), false, i.Pos(), "send on close-only channel "+f+" in "+fname, propsOf(m))
 							}
+							chanEnd(f, "senders", "send on", i.Pos())
+						} else {
+							chanEnd(f, "receivers", "receive from", i.Pos())
 						}
 					}
+				}
+				// a channel whose ends are confined must not be copied, passed on or returned: every load of the
+				// field is used as the operand of a channel operation right away
+				if u, ok := in.(*ssa.UnOp); ok && u.Op == token.MUL {
+					if f, _ := fieldOfAddr(u.X); f != "" {
+						confined := false
+						for _, m := range s.CS.FieldModes[f] {
+							if m != nil && (m.Mode == "senders" || m.Mode == "receivers") && hasProp(propsOf(m), prop) {
+								confined = true
+							}
+						}
+						if confined && u.Referrers() != nil {
+							var vals []ssa.Value = []ssa.Value{u}
+							for len(vals) > 0 {
+								v := vals[0]
+								vals = vals[1:]
+								for _, r := range *v.Referrers() {
+									okUse := false
+									switch rr := r.(type) {
+									case *ssa.Send:
+										okUse = rr.Chan == v && rr.X != v
+									case *ssa.Select:
+										okUse = true
+										for _, st := range rr.States {
+											if st.Send == v {
+												okUse = false
+											}
+										}
+									case *ssa.UnOp:
+										okUse = rr.Op == token.ARROW
+									case *ssa.ChangeType:
+										okUse = true
+										vals = append(vals, rr)
+									case *ssa.Call:
+										if b, isB := rr.Call.Value.(*ssa.Builtin); isB && (b.Name() == "len" || b.Name() == "cap") {
+											okUse = true
+										}
+									case *ssa.DebugRef:
+										okUse = true
+									}
+									if !okUse {
+										for _, m := range s.CS.FieldModes[f] {
+											if m != nil && (m.Mode == "senders" || m.Mode == "receivers") && hasProp(propsOf(m), prop) {
+												add(fmt.Sprintf("field-modes/%s[%s]/escapes@%s", m.Mode, f, fname), false, u.Pos(), "the channel "+f+" is copied, passed on or returned in "+fname+" ("+s.P.PosStr(u.Pos())+"): its ends can no longer be attributed to the listed functions", propsOf(m))
+											}
+										}
+									}
+								}
+							}
+						}
+					}
+				}
+				// receive outside a select; range over a channel (Next on a channel iterator is a receive UnOp in SSA)
+				if u, ok := in.(*ssa.UnOp); ok && u.Op == token.ARROW {
+					chanEnd(fieldOfLoaded(u.X), "receivers", "receive from", u.Pos())
 				}
 			}
 		}
@@ -285,7 +364,7 @@ func (s *Session) ScanFieldModes(prop string) *FuncResult {
 				continue
 			}
 			switch m.Mode {
-			case "writers", "immutable", "atomic", "closeonly", "users":
+			case "writers", "immutable", "atomic", "closeonly", "users", "senders", "receivers":
 				add(fmt.Sprintf("field-modes/%s[%s]/scan-complete", m.Mode, name), true, token.NoPos, fmt.Sprintf("%d functions scanned", len(s.P.AllFns)), propsOf(m))
 			}
 		}
